@@ -351,7 +351,7 @@ def generate():
     def keytab(l):
         return '[' + ', '.join(f'({lean_str(k)}, {lean_str(v)})' for k, v in l) + ']'
     lean = f'''/-
-  GENERATED by tools/gen_tables.py from {REPO} - do not edit.
+  GENERATED by tools/gen_tables.py from the penman/ sources of the repository under check - do not edit.
   Regenerated on every check run; theorems about these tables are
   re-checked by `decide` whenever the source tables change.
 -/
@@ -396,6 +396,16 @@ end Penman.Generated
 
 def main():
     os.makedirs(BUILD, exist_ok=True)
+    if '--dry' in sys.argv:
+        # measurement mode (tools/mutate.py): translate, compare, write nothing
+        try:
+            lean, _ = generate()
+        except Untranslatable as e:
+            print('UNTRANSLATABLE:', e)
+            return 3
+        same = os.path.exists(OUT) and open(OUT).read() == lean
+        print('Generated.lean unchanged' if same else 'Generated.lean DIFFERS')
+        return 0
     ufile = os.path.join(BUILD, 'untranslatable.txt')
     try:
         lean, tables = generate()
